@@ -25,6 +25,7 @@ const (
 	opLockR
 	opSend
 	opRecv
+	opSelect
 	opJoin
 	opDone
 )
@@ -39,6 +40,8 @@ type thread struct {
 	turn   int32 // 1 = may run
 	op     opKind
 	obj    any
+	obj2   any // opSelect: the second channel
+	rvObj  any // opSelect: the channel a sender chose for the rendezvous
 	done   bool
 	client bool
 	inRv   bool
@@ -247,7 +250,17 @@ func (s *Sched) enabled(t *thread) bool {
 		}
 		for i := 0; i < s.nthreads; i++ {
 			o := s.threads[i]
-			if o != t && !o.done && o.op == opRecv && o.obj == t.obj && !o.inRv {
+			if o != t && !o.done && o.receivesOn(t.obj) && !o.inRv {
+				return true
+			}
+		}
+		return false
+	case opSelect:
+		if t.inRv {
+			return false
+		}
+		for _, ch := range []any{t.obj, t.obj2} {
+			if reflect.ValueOf(ch).Len() > 0 || s.isClosed(ch) {
 				return true
 			}
 		}
@@ -285,6 +298,8 @@ func (s *Sched) describe(t *thread) string {
 		return t.name + ": blocked in channel send"
 	case opRecv:
 		return t.name + ": blocked in channel receive"
+	case opSelect:
+		return t.name + ": blocked in select"
 	case opJoin:
 		return t.name + ": waiting for client threads"
 	}
@@ -480,12 +495,13 @@ func sendPre(ch any) (s *Sched, t *thread, r *thread) {
 	}
 	for i := 0; i < s.nthreads; i++ {
 		o := s.threads[i]
-		if o != t && !o.done && o.op == opRecv && o.obj == ch && !o.inRv {
+		if o != t && !o.done && o.receivesOn(ch) && !o.inRv {
 			r = o
 			break
 		}
 	}
 	r.inRv = true
+	r.rvObj = ch
 	set(&r.turn)
 	return s, t, r
 }
@@ -530,6 +546,67 @@ func recvPost(s *Sched, t *thread, rv bool) {
 		set(&s.cur.ack)
 		spinUntil(&t.turn)
 	}
+}
+
+// receivesOn: the thread is parked in a receive (or a select with a receive) on ch.
+//
+//go:norace
+func (t *thread) receivesOn(ch any) bool {
+	return (t.op == opRecv && t.obj == ch) || (t.op == opSelect && (t.obj == ch || t.obj2 == ch))
+}
+
+//go:norace
+func selectPre(a, b any) (s *Sched, t *thread, rv bool, which int) {
+	s = S
+	if s == nil {
+		return nil, nil, false, -1
+	}
+	t = s.me()
+	if t == nil {
+		return nil, nil, false, -1
+	}
+	t.op = opSelect
+	t.obj, t.obj2 = a, b
+	s.schedule(t)
+	rv = t.inRv
+	switch {
+	case rv && t.rvObj == b:
+		which = 1
+	case rv:
+		which = 0
+	case reflect.ValueOf(a).Len() > 0 || s.isClosed(a):
+		which = 0
+	default:
+		which = 1
+	}
+	return s, t, rv, which
+}
+
+// Select2 replaces `select { case <-a: ...; case <-b: ... }` (two plain receives, no default) and returns the index
+// of the case that was taken. When both are ready the first is taken.
+func Select2[A, B any](a chan A, b chan B) int {
+	s, t, rv, which := selectPre(a, b)
+	if t == nil {
+		select {
+		case <-a:
+			return 0
+		case <-b:
+			return 1
+		}
+	}
+	if which == 0 {
+		<-a
+	} else {
+		<-b
+	}
+	selectPost(s, t, rv)
+	return which
+}
+
+//go:norace
+func selectPost(s *Sched, t *thread, rv bool) {
+	t.obj2, t.rvObj = nil, nil
+	recvPost(s, t, rv)
 }
 
 // Recv2 replaces `v, ok := <-ch`.
